@@ -470,6 +470,15 @@ for rnd in range(3 if not THOROUGH else 12):
         for ov in (D(days=8, hours=16), D(days=9), D(days=9, hours=6), D(days=11, hours=18), D(days=12), D(days=12, hours=8)):
             verdict_case("chain-overlap-zone-" + tz_, enc(successor(skr, zskpol, n=n, overlap=ov, rid=f"z-{rnd}-{tz_}-{ov.total_seconds():.0f}")), sdoc, n, n_prev,
                          expect="OK" if zskpol["min_overlap"] <= ov <= zskpol["max_overlap"] else "not-OK", zone=(tz_, sfx))
+    # a ZSK policy declaring the same RSA algorithm and size with several exponents (all approved): the keys fit one of the entries, whichever is listed or iterated first
+    if rnd == 0:
+        for other_e in (3, 17, 5, 257, 2**32 + 1, 65539):
+            for order in (0, 1):
+                algs_ = [("RSA", 8, 1024, 65537), ("RSA", 8, 1024, other_e)][::1 if order == 0 else -1]
+                zp2 = ksrxml.default_zsk_policy(algs=algs_)
+                skr2 = prev_skr(n_prev, zp2)
+                verdict_case("two-declared-exponents", enc(successor(skr2, zp2, n=n, rid=f"exp-{other_e}-{order}")), ksrxml.render_skr(skr2), n, n_prev,
+                             extra_policy={"rsa_approved_exponents": [65537, other_e]}, expect="OK")
     verdict_case("chain-keys-disjoint", enc(successor(skr, zskpol, n=n, first_keys=[ZSKS[3]])), sdoc, n, n_prev)
     verdict_case("chain-keys-subset", enc(successor(skr, zskpol, n=n, first_keys=pub[:1])), sdoc, n, n_prev)
     # other key material under the identifiers the previous SKR published (tag, proof of possession and all in order): not the published keys
